@@ -83,7 +83,7 @@ def name_facts(names, tests_pat=DEFAULT_TESTS, file_pat=DEFAULT_FILE, ignore_dir
     return facts
 
 
-def tree_record(paths, roots, mpats=(), keep=False, walk=None, **pat):
+def tree_record(paths, roots, mpats=(), keep=False, walk=None, root_pkgs=None, **pat):
     """paths (closed) -> the T record of Discovery.tla; roots: relpaths ('' = top)"""
     names = sorted({p.split('/')[-1] for p in paths})
     entries = {}
@@ -92,9 +92,12 @@ def tree_record(paths, roots, mpats=(), keep=False, walk=None, **pat):
         entries[p] = {'parent': parent, 'name': p.split('/')[-1], 'kind': kind}
     tests_pat = pat.get('tests_pat', DEFAULT_TESTS)
 
+    root_pkgs = root_pkgs or {}
+
     def dotted(p, r):
         rel = p[len(r) + 1:] if r else p
-        return (rel[:-3] if rel.endswith('.py') else rel).replace('/', '.')
+        name = (rel[:-3] if rel.endswith('.py') else rel).replace('/', '.')
+        return (root_pkgs[r] + '.' + name) if root_pkgs.get(r) else name
     mm = {}
     for p, kind in paths.items():
         if kind == 'file':
@@ -103,6 +106,8 @@ def tree_record(paths, roots, mpats=(), keep=False, walk=None, **pat):
     return {'entries': entries or {'_': {'parent': '_', 'name': '_', 'kind': 'none'}},
             'names': name_facts(names + ['_'], **pat),
             'roots': list(roots),
+            'rootPkg': [root_pkgs.get(r, '') for r in roots],
+            'walkPkg': [root_pkgs.get(r, '') for r in (walk if walk is not None else roots)],
             'walk': list(walk if walk is not None else roots),
             'walkT': [bool(re.search(tests_pat, os.path.basename(r))) if r else False
                       for r in (walk if walk is not None else roots)],
@@ -122,10 +127,10 @@ def snapshot(top):
     return out
 
 
-def run_runner(top, args, timeout=120):
+def run_runner(top, args, timeout=120, env_extra=None):
     log = top + '.importlog'
     open(log, 'w').close()
-    env = runlib.base_env({'VERIF_IMPORT_LOG': log})
+    env = runlib.base_env(dict({'VERIF_IMPORT_LOG': log}, **(env_extra or {})))
     cmd = [runlib.PY, os.path.join(runlib.BOOT, 'zt.py')] + list(args)
     try:
         p = subprocess.run(cmd, env=env, stdout=subprocess.PIPE, stderr=subprocess.PIPE,
@@ -153,10 +158,23 @@ def run_case(case):
         paths = materialise(top, case['paths'], keyf, case.get('contents'))
         before = snapshot(top)
         args = []
+        pkgs = case.get('root_pkgs') or {}
+        extra_env = {}
         for r in case['roots']:
-            args += [case.get('path_flag', '--path'), os.path.join(top, r) if r else top]
+            full = os.path.join(top, r) if r else top
+            if pkgs.get(r):
+                # --package-path: the directory is stitched into a package that
+                # lives elsewhere on sys.path
+                lib = os.path.join(base, 'lib')
+                os.makedirs(os.path.join(lib, pkgs[r]), exist_ok=True)
+                with open(os.path.join(lib, pkgs[r], '__init__.py'), 'w') as f:
+                    f.write('__path__.append(%r)\n' % full)
+                extra_env['PYTHONPATH'] = runlib.BOOT + os.pathsep + lib
+                args += ['--package-path', full, pkgs[r]]
+            else:
+                args += [case.get('path_flag', '--path'), full]
         args += case['args']
-        res = run_runner(top, args)
+        res = run_runner(top, args, env_extra=extra_env)
         after = snapshot(top)
         res['paths'] = paths
         res['deleted'] = sorted(p for p in before if p not in after)
